@@ -1007,6 +1007,9 @@ class AstEval:
             return
         mod = await self.global_ctx.module_import(arg.module, arg.level)
         if not mod:
+            if arg.level > 0:
+                # a relative import only names members of the package; never fall back to an absolute module
+                raise ModuleNotFoundError(f"module '{'.' * arg.level}{arg.module}' not found")
             if (
                 not self.config_entry.data.get(CONF_ALLOW_ALL_IMPORTS, False)
                 and arg.module not in ALLOWED_IMPORTS
